@@ -261,6 +261,28 @@ pub fn params_replay(args: &Args) -> i32 {
 }
 
 /// predictions of the real predictor next to plaintext, parameters and tokens, for Trace_Match
+/// a parameter vector next to the estimated one (always inside the ranges of vec_to_params)
+fn perturb(rng: &mut Rng, est: &[u32]) -> Vec<u32> {
+    let mut v = est.to_vec();
+    for _ in 0..rng.range(1, 3) {
+        match rng.below(12) {
+            0 => v[14] = *rng.pick(&[1, 2, 3, 4, 8, 32]),                       // max_chain
+            1 => v[13] = *rng.pick(&[3, 4, 8, 16, 32, 128, 258]),               // nice_length
+            2 => { v[12] = *rng.pick(&[0, 4, 5, 16, 32, 258]); v[11] = *rng.pick(&[4, 8, 32]); } // lazy
+            3 => v[2] = 1 - v[2].min(1),                                        // zlib_compatible
+            4 => { v[16] = rng.below(5) as u32; v[17] = *rng.pick(&[0, 3, 4, 5, 6, 32]); } // add policy
+            5 => v[8] = *rng.pick(&[0, 1, 16, 4096, 32768]),                    // max_dist_3_matches
+            6 => v[9] = 1 - v[9].min(1),                                        // very far matches
+            7 => v[10] = 1 - v[10].min(1),                                      // matches to start
+            8 => { v[4] = rng.range(1, 7) as u32; if v[4] == 1 { v[5] = *rng.pick(&[3, 4, 5]); v[6] = *rng.pick(&[0x1ff, 0x7fff, 0xffff]); } else { v[5] = 0; v[6] = 0; } }
+            9 => v[3] = rng.range(9, 15) as u32,                                // window_bits
+            10 => v[0] = *rng.pick(&[0, 0, 1]),                                 // strategy default / rle
+            _ => v[14] = v[14] / 2 + 1,
+        }
+    }
+    v
+}
+
 pub fn match_record(args: &Args) -> i32 {
     quiet_panics();
     let seed = args.num("seed", 1);
@@ -269,9 +291,12 @@ pub fn match_record(args: &Args) -> i32 {
     let mut streams: Vec<(String, Vec<u8>)> = Vec::new();
     for _ in 0..args.num("streams", 12) {
         let (pn, plain) = crate::gen::plaintext(&mut rng, maxplain);
-        // zlib and miniz level 1 are the compressors whose hash functions the specification covers
-        let (cn, s) = match rng.below(5) {
+        let (cn, s) = match rng.below(12) {
+            9 | 10 | 11 => { let sl = rng.range(1, 8); (format!("sloppy:{}", sl), crate::gen::sloppy_raw(&mut rng, &plain, sl)) }
             0 => ("miniz:l1".to_string(), crate::gen::miniz_raw(&plain, 1)),
+            1 => { let l = rng.range(2, 9) as u8; (format!("miniz:l{}", l), crate::gen::miniz_raw(&plain, l)) }
+            2 | 3 => { let l = rng.range(1, 12) as i32; (format!("libdeflate:l{}", l), crate::gen::libdeflate_raw(&plain, l)) }
+            4 | 5 => { let l = rng.range(1, 9) as i32; (format!("zlibng:l{}", l), crate::gen::zlibng_raw(&plain, l)) }
             _ => {
                 let level = rng.range(1, 9) as i32;
                 let mem = *rng.pick(&[8, 8, 9, 6, 1]);
@@ -287,9 +312,24 @@ pub fn match_record(args: &Args) -> i32 {
     let mut cases = std::io::BufWriter::new(std::fs::File::create(format!("{}.cases", args.req("out"))).unwrap());
     let mut run = 0;
     let mut supported = 0;
+    let perturbed = args.num("perturb", 2) as usize;
+    // every stream under the estimated parameters, then under vectors next to them: the
+    // predictions go wrong in ways the estimated parameters hardly ever allow
+    let mut jobs: Vec<(String, &Vec<u8>, Option<Vec<u32>>)> = Vec::new();
     for (label, s) in &streams {
+        jobs.push((label.clone(), s, None));
+        if perturbed > 0 {
+            if let Ok(Ok(est)) = guarded(|| verif::estimate(s)) {
+                for k in 0..perturbed {
+                    jobs.push((format!("{}/perturbed{}", label, k), s, Some(perturb(&mut rng, &est))));
+                }
+            }
+        }
+    }
+    for (label, s, forced) in &jobs {
+        let s: &Vec<u8> = s;
         verif::predictor_log_start();
-        let a = guarded(|| verif::analyse_trace(s));
+        let a = guarded(|| verif::analyse_trace_with(s, forced.as_deref()));
         let preds = verif::predictions_take();
         let states = verif::predictor_log_take();
         let a = match a { Ok(a) => a, Err(_) => continue };
@@ -297,8 +337,9 @@ pub fn match_record(args: &Args) -> i32 {
         if parse.plain.len() > maxplain * 2 {
             continue;
         }
-        let sup = (params[4] == 1 || params[4] == 2) && params[0] <= 1;
-        writeln!(cases, "{}", json!({"run":run,"label":label,"hex":hex(s)})).unwrap();
+        let sup = (1..=7).contains(&params[4]) && params[0] <= 1;
+        let tsegs: Vec<Seg> = segments(&a.ops).into_iter().filter(|x| x.marker == "token").collect();
+        writeln!(cases, "{}", json!({"run":run,"label":label,"hex":hex(s),"forced":forced})).unwrap();
         writeln!(out, "{}", event("Reset", json!({"run":run,"label":label,"params":params,"supported":sup,
             "plain": if sup { Value::Array(parse.plain.iter().map(|b| json!(b)).collect()) } else { json!([]) }}))).unwrap();
         if !sup {
@@ -318,7 +359,8 @@ pub fn match_record(args: &Args) -> i32 {
                 let tj = match t { Tok::Lit(v) => json!([0, v, 0, 0]), Tok::Ref { len, dist, irregular258 } => json!([1, len, dist, *irregular258 as u32]) };
                 let (st, pr) = (states.get(k), preds.get(k));
                 let pj = match pr { Some(p) => match &p.1 { Tok::Lit(_) => json!([0, 0, 0]), Tok::Ref { len, dist, .. } => json!([1, len, dist]) }, None => json!([9, 9, 9]) };
-                writeln!(out, "{}", event("Tok", json!({"t": tj, "p": pj, "pos": st.map(|x| x.pos).unwrap_or(0), "pend": st.map(|x| x.pending as u32).unwrap_or(9)}))).unwrap();
+                let oj = tsegs.get(k).map(|x| ops_json(&x.ops)).unwrap_or(json!([["missing"]]));
+                writeln!(out, "{}", event("Tok", json!({"t": tj, "p": pj, "ops": oj, "pos": st.map(|x| x.pos).unwrap_or(0), "pend": st.map(|x| x.pending as u32).unwrap_or(9)}))).unwrap();
                 k += 1;
             }
         }
